@@ -6,8 +6,9 @@
        which moves a local time that does not exist by the size of the gap (forward with fold=1, BACKWARD with fold=0) —
        set()/on()/at()/start_of("day") pass the instance's fold, add(days=..) the default fold=1.
        The bodies repeat those of Model/Weekday.v statement by statement with `z_create` in the place of `t_create`.
-   (B) the month helpers under a process-wide calendar.setfirstweekday(fw): calendar.monthcalendar lays its rows out from
-       weekday fw, the helpers index the row with the requested weekday all the same.
+   (B) the month helpers called under a process-wide calendar.setfirstweekday(fw): they build their own
+       calendar.Calendar(calendar.MONDAY), whose rows start on Monday whatever fw is (calendar.Calendar(fw) is modelled for
+       every fw and validated against the stdlib by the `firstweekday` stream).
 
    No proofs here (Proofs/C16Zone.v, Proofs/C16FirstWeekday.v).  Tied to /repo by the correspondence run of
    tools/props/C16.py (streams zone-*, firstweekday), both backends. *)
@@ -165,7 +166,8 @@ Definition z_apply (z : zone) (op u n : Z) (wd : option Z) (keep : bool) (x : zd
   else match wd with Some w => z_nth_of z u x n w | None => Raise E_TypeError end.
 
 (* ------------------------------------------------------------------ (B) calendar.setfirstweekday(fw) *)
-(* calendar.monthcalendar(y, m) when calendar.firstweekday() = fw: column c of a row is weekday (fw + c) mod 7 *)
+(* calendar.Calendar(fw).monthdayscalendar(y, m): column c of a row is weekday (fw + c) mod 7
+   (calendar.monthcalendar is this with fw = the process-wide calendar.firstweekday()) *)
 Definition mc_first_fw (fw y m : Z) : Z := (weekday0 (ymd2ord y m 1) - fw) mod 7.
 Definition mc_rows_fw (fw y m : Z) : Z := (mc_first_fw fw y m + dim y m + 6) / 7.
 Definition mc_cell_fw (fw y m row col : Z) : Z :=
@@ -177,16 +179,21 @@ Definition mc_get_fw (fw y m i c : Z) : result Z :=
   let cc := if c <? 0 then c + 7 else c in
   if (r <? 0) || (n <=? r) || (cc <? 0) || (7 <=? cc) then Raise E_IndexError else Ok (mc_cell_fw fw y m r cc).
 
-(* Date._first_of_month / _last_of_month as written, reading the configured calendar (the DateTime variants are the same
-   statements after start_of("day")) *)
+Definition CAL_MONDAY : Z := 0.                 (* calendar.MONDAY *)
+
+(* Date._first_of_month / _last_of_month as written, called while calendar.setfirstweekday(fw) is in force (the DateTime
+   variants are the same statements after start_of("day")):
+     month = calendar.Calendar(calendar.MONDAY).monthdayscalendar(dt.year, dt.month)
+   a calendar object of the helpers' own, laid out from Monday — the process-wide setting fw is an input of the call that the
+   code does not read (before the repair of finding calendar-firstweekday it read calendar.monthcalendar = mc_get_fw fw) *)
 Definition fw_first_of_month (fw : Z) (self : pdate) (wd : option Z) : result pdate :=
   match wd with
   | None => date_set_day self 1
   | Some w =>
     let y := d_year self in let m := d_month self in
-    bind (mc_get_fw fw y m 0 w) (fun c0 =>
+    bind (mc_get_fw CAL_MONDAY y m 0 w) (fun c0 =>
     if c0 >? 0 then date_set_day self c0
-    else bind (mc_get_fw fw y m 1 w) (fun c1 => date_set_day self c1))
+    else bind (mc_get_fw CAL_MONDAY y m 1 w) (fun c1 => date_set_day self c1))
   end.
 
 Definition fw_last_of_month (fw : Z) (self : pdate) (wd : option Z) : result pdate :=
@@ -194,9 +201,9 @@ Definition fw_last_of_month (fw : Z) (self : pdate) (wd : option Z) : result pda
   | None => date_set_day self (days_in_month self)
   | Some w =>
     let y := d_year self in let m := d_month self in
-    bind (mc_get_fw fw y m (-1) w) (fun c0 =>
+    bind (mc_get_fw CAL_MONDAY y m (-1) w) (fun c0 =>
     if c0 >? 0 then date_set_day self c0
-    else bind (mc_get_fw fw y m (-2) w) (fun c1 => date_set_day self c1))
+    else bind (mc_get_fw CAL_MONDAY y m (-2) w) (fun c1 => date_set_day self c1))
   end.
 
 Definition fw_first_of (fw u : Z) (self : pdate) (wd : option Z) : result pdate :=
